@@ -19,7 +19,7 @@ np.random.random(scramble % 11)
 out = {}
 try:
     with contextlib.redirect_stdout(io.StringIO()):
-        for name in GETTERS[3 if alg in ("ico", "cube3D", "randomS") else 4]:
+        for name in GETTERS["fg" if alg.startswith("FG|") else (3 if alg in ("ico", "cube3D", "randomS") else 4)]:
             np.random.random(3)
             g = make_grid(alg, N)
             out[name] = value_hash(call_getter(g, name))
